@@ -1325,6 +1325,8 @@ func (ff *FuncFacts) term0(e ast.Expr) *Term {
 				recv := x.X
 				if u, isU := unparen(recv).(*ast.UnaryExpr); isU && u.Op == token.AND {
 					recv = u.X // (&v).f is v.f
+				} else if sx, isStar := unparen(recv).(*ast.StarExpr); isStar {
+					recv = sx.X // (*p).f is p.f
 				}
 				b := ff.term(recv)
 				if b == nil {
@@ -3921,4 +3923,41 @@ func (ff *FuncFacts) valueSpec(vs *ast.ValueSpec, st *State, record bool) *State
 		}
 	}
 	return st
+}
+
+// PointeeOf: the term x when the state equates t (through at most a few
+// copies) with the address &x; nil otherwise.
+func (s *State) PointeeOf(t *Term) *Term {
+	if s == nil || t == nil {
+		return nil
+	}
+	seen := map[string]bool{t.String(): true}
+	work := []*Term{t}
+	for depth := 0; depth < 4 && len(work) > 0; depth++ {
+		var next []*Term
+		for _, w := range work {
+			if w.K == 'o' && w.Name == "&" && len(w.Args) == 1 {
+				return w.Args[0]
+			}
+			ws := w.String()
+			for _, f := range s.m {
+				if f.Op != "eq" || !f.Pos || f.B == nil {
+					continue
+				}
+				for _, pr := range [][2]*Term{{f.A, f.B}, {f.B, f.A}} {
+					if pr[0].String() == ws && !seen[pr[1].String()] {
+						seen[pr[1].String()] = true
+						next = append(next, pr[1])
+					}
+				}
+			}
+		}
+		work = next
+	}
+	for _, w := range work {
+		if w.K == 'o' && w.Name == "&" && len(w.Args) == 1 {
+			return w.Args[0]
+		}
+	}
+	return nil
 }
